@@ -28,9 +28,7 @@ var globalStateExceptions = map[string]string{
 var chipStateExceptions = map[string]string{
 	"goldilocks.Chip.rangeCheckCollected": "the deferred range-check collection (drained by the deferred checkCollected, C06)",
 	"goldilocks.Chip.collectedMutex":      "guards the collection",
-	"challenger.Chip.inputBuffer":         "transcript state of a challenger created per proof (C11 fresh-challenger)",
-	"challenger.Chip.outputBuffer":        "transcript state of a challenger created per proof (C11 fresh-challenger)",
-	"challenger.Chip.spongeState":         "transcript state of a challenger created per proof (C11 fresh-challenger)",
+	"challenger.Chip.*":                   "the challenger is the transcript: all its fields are state of a chip created per proof (C11 fresh-challenger)",
 }
 
 var bigIntReadOnly = map[string]bool{"Cmp": true, "CmpAbs": true, "Sign": true, "Uint64": true, "Int64": true, "String": true, "Text": true,
@@ -256,6 +254,12 @@ func rulesChipState(cx *Ctx, prop string) []Obligation {
 				if _, ok := chipStateExceptions[f]; ok {
 					used[f] = true
 					continue
+				}
+				if i := strings.LastIndex(f, "."); i > 0 {
+					if _, ok := chipStateExceptions[f[:i]+".*"]; ok {
+						used[f[:i]+".*"] = true
+						continue
+					}
 				}
 				bad1 = append(bad1, fmt.Sprintf("%s: chip field %s %s in %s", P.Pos(ins.Pos()), f, what, P.FnName(fn)))
 			}
